@@ -159,8 +159,9 @@ PROPS = {
         level_note="Trusted: the JSON shape checker. Accessories are completed before they are added to a container (as the library's own transport does). The wire-level fetch of /accessories is covered by C09.",
         rule=("rapid compositions; non-trivial: at least 2 accessories and at least 1 extra service. Distinct by composition. Plus one enumerated case per accessory constructor and per service constructor."),
         assumptions=["an accessory is added to exactly one container, after all its services have been added"],
-        essential_classes=["ids:mixed", "ids:explicit", "ids:auto", "explicit-id-collision", "linked-services", "accessories>=20", "every-accessory-constructor", "every-service-constructor", "service-without-characteristics", "custom-service", "remove-accessory", "extended-after-publication"],
+        essential_classes=["ids:mixed", "ids:explicit", "ids:auto", "explicit-id-collision", "linked-services", "accessories>=20", "every-accessory-constructor", "every-service-constructor", "service-without-characteristics", "custom-service", "remove-accessory", "extended-after-publication", "transport:first-accessory-explicit-id"],
         jobs=[
+            dict(test="TestC14Transport", kind="rapid", checks={Q: 10, T: 150}, shards={Q: 4, T: 8}),
             dict(test="TestC14EveryConstructor", kind="plain"),
             dict(test="TestC14Prop", kind="rapid", checks={Q: 300, T: 10000}, shards=16),
         ],
